@@ -1685,6 +1685,24 @@ impl<'c, 'b, 'de, 'res: 'de, RES: TokenResolver, E: BinaryFlavor> de::Deserializ
         visitor.visit_unit()
     }
 
+    fn deserialize_unit<V>(self, visitor: V) -> Result<V::Value, Self::Error>
+    where
+        V: Visitor<'de>,
+    {
+        visitor.visit_unit()
+    }
+
+    fn deserialize_unit_struct<V>(
+        self,
+        _name: &'static str,
+        visitor: V,
+    ) -> Result<V::Value, Self::Error>
+    where
+        V: Visitor<'de>,
+    {
+        visitor.visit_unit()
+    }
+
     fn deserialize_newtype_struct<V>(
         self,
         _name: &'static str,
@@ -1744,7 +1762,7 @@ impl<'c, 'b, 'de, 'res: 'de, RES: TokenResolver, E: BinaryFlavor> de::Deserializ
 
     serde::forward_to_deserialize_any! {
         bool i8 i16 i32 i64 i128 u8 u32 u64 u128 f32 f64 char str string
-        bytes byte_buf unit unit_struct
+        bytes byte_buf
         identifier
     }
 }
